@@ -114,7 +114,7 @@ def _write_cases(path, cases):
             f.write(b"\n")
 
 
-def _run_chunk(exe, cases, repeat, items, timeout):
+def _run_chunk(exe, cases, repeat, items, timeout, env=None):
     """Run one runner process over cases; survive crashes/hangs by restarting after the culprit."""
     results = {}
     pending = list(cases)
@@ -125,7 +125,7 @@ def _run_chunk(exe, cases, repeat, items, timeout):
         cmd = [exe, path, "--repeat", str(repeat)]
         if not items:
             cmd.append("--no-items")
-        rc, out, err, wall = run(cmd, timeout=timeout)
+        rc, out, err, wall = run(cmd, timeout=timeout, env=env)
         os.unlink(path)
         begun = None
         for line in out.splitlines():
